@@ -200,17 +200,34 @@ Lemma lmax_ge l y : In y l -> y <= Rlmax l.
 Proof. destruct l as [|a l]; [intros []|]. cbn [lmax]. destruct (maxl_ge a l) as [H1 H2]. intros [<-|H]; auto. Qed.
 
 (* ------------------------------------------------------------------ one abscissa *)
+Lemma lmin_le_lmax l : Rlmin l <= Rlmax l.
+Proof.
+  destruct l as [|a l]; [unfold lmin, lmax, zero; lra|].
+  pose proof (lmin_le (a :: l) a (or_introl eq_refl)). pose proof (lmax_ge (a :: l) a (or_introl eq_refl)). lra.
+Qed.
+
+Lemma fabs_cases a : (0 <= a /\ fabs R Rminus Rleb IZR a = a) \/ (a < 0 /\ fabs R Rminus Rleb IZR a = - a).
+Proof.
+  unfold fabs, zero. destruct (Rleb 0 a) eqn:E; [left; apply Rleb_true in E; auto|right; apply Rleb_false in E; split; [exact E|ring]].
+Qed.
+
 Section OneAbscissa.
   Variable cl : list rpt.
-  (* the polygon is not flat: min ordinate < max ordinate (forced: a flat polygon gives a
-     degenerate probe segment, every system is singular and every abscissa is omitted) *)
-  Hypothesis Hext : Rlmin (map snd cl) < Rlmax (map snd cl).
+  (* the ordinates are not all zero (forced: for a polygon lying flat ON the axis the probe segment is
+     degenerate, every 4x4 system is singular and every abscissa is omitted) *)
+  Hypothesis Hext : Rlmin (map snd cl) < Rlmax (map snd cl) \/ Rlmax (map snd cl) <> 0.
 
-  Lemma probe_wide : Rprobe_lo cl < Rlmin (map snd cl) /\ Rlmax (map snd cl) < Rprobe_hi cl.
-  Proof. unfold probe_lo, probe_hi, probe_pad, one. split; lra. Qed.
+  Lemma probe_wide : Rprobe_lo cl <= Rlmin (map snd cl) /\ Rlmax (map snd cl) <= Rprobe_hi cl /\ Rprobe_lo cl < Rprobe_hi cl.
+  Proof.
+    unfold probe_lo, probe_hi, probe_pad, one. pose proof (lmin_le_lmax (map snd cl)) as L.
+    set (lo := Rlmin (map snd cl)) in *. set (hi := Rlmax (map snd cl)) in *.
+    destruct (fabs_cases lo) as [[A1 ->]|[A1 ->]], (fabs_cases hi) as [[A2 ->]|[A2 ->]];
+      match goal with |- context [Rfmax ?a ?b] => destruct (fmax_cases a b) as [[M ->]|[M ->]] end;
+      destruct Hext as [H|H]; repeat split; lra.
+  Qed.
 
   Lemma on_seg_ordinate_in_probe s x y : In s (segments cl) -> on_seg s (x, y) ->
-    Rprobe_lo cl < y < Rprobe_hi cl.
+    Rprobe_lo cl <= y <= Rprobe_hi cl.
   Proof.
     intros Hs [t [Ht [_ Hy]]]. cbn [fst snd] in Hy.
     destruct (segments_vertices cl s Hs) as [Ha Hb].
@@ -218,7 +235,7 @@ Section OneAbscissa.
     pose proof (lmin_le (map snd cl) _ (in_map snd _ _ Hb)). pose proof (lmax_ge (map snd cl) _ (in_map snd _ _ Hb)).
     pose proof (between (snd (fst s)) (snd (snd s)) t Ht) as B. rewrite <- Hy in B.
     destruct (fmin_cases (snd (fst s)) (snd (snd s))) as [[_ E1]|[_ E1]], (fmax_cases (snd (fst s)) (snd (snd s))) as [[_ E2]|[_ E2]];
-      rewrite E1, E2 in B; destruct probe_wide; lra.
+      rewrite E1, E2 in B; destruct probe_wide as [? [? ?]]; lra.
   Qed.
 
   Lemma segments_probe x : segments (Rprobe cl x) = [((x, Rprobe_lo cl), (x, Rprobe_hi cl))].
@@ -228,7 +245,7 @@ Section OneAbscissa.
   Lemma probe_hits x p :
     In p (Rintersection cl (Rprobe cl x)) <-> fst p = x /\ crossing cl x (snd p).
   Proof.
-    rewrite intersection_spec. destruct probe_wide as [W1 W2]. split.
+    rewrite intersection_spec. destruct probe_wide as [W1 [W2 W3]]. split.
     - intros [s1 [s2 [H1 [H2 [HD [O1 O2]]]]]]. rewrite segments_probe in H2. destruct H2 as [<-|[]].
       destruct O2 as [u [Hu [Hx _]]]. cbn [fst snd] in Hx.
       assert (Ex : fst p = x) by lra. split; [exact Ex|].
@@ -287,7 +304,7 @@ Inductive dc_rel (cl : list rpt) : list R -> list rpt -> Prop :=
 | dc_keep x xs y r : crossing cl x y -> (forall y', crossing cl x y' -> y' <= y) ->
                      dc_rel cl xs r -> dc_rel cl (x :: xs) ((x, y) :: r).
 
-Lemma dc_rel_flat_map cl xs : Rlmin (map snd cl) < Rlmax (map snd cl) ->
+Lemma dc_rel_flat_map cl xs : Rlmin (map snd cl) < Rlmax (map snd cl) \/ Rlmax (map snd cl) <> 0 ->
   dc_rel cl xs (flat_map (Rdc_one cl) xs).
 Proof.
   intros Hext. induction xs as [|x xs IH]; [constructor|]. cbn [flat_map].
@@ -297,7 +314,7 @@ Proof.
     cbn [app]. apply dc_keep; auto.
 Qed.
 
-Theorem design_conditions_rel cl st : Rlmin (map snd cl) < Rlmax (map snd cl) ->
+Theorem design_conditions_rel cl st : Rlmin (map snd cl) < Rlmax (map snd cl) \/ Rlmax (map snd cl) <> 0 ->
   dc_rel cl (Rsteps_of cl st) (Rdc_closed cl st).
 Proof. intros H. unfold design_conditions_closed. apply dc_rel_flat_map. exact H. Qed.
 
